@@ -2,19 +2,28 @@
 CFG = dict(
     claim="Theorems C08_grammar, C08_no_misread, C08_transfer, C08_deadline, C08_none, C08_key_case_insensitive, C08_pick_sound "
           "(coq/Props/C08.v) hold for every byte string / every remaining time of the Gallina model of parseGrpcTimeout, the deadline "
-          "branch of headersFromContext and the header scan of contextFromHeaders; model and code are run on the same inputs on every run.",
+          "branch of headersFromContext and the header scan of contextFromHeaders; C08_sys_deadline, C08_sys_none, C08_sys_foreign: the "
+          "composition caller context -> header -> handler context, for unary and streaming calls alike, for every caller deadline, "
+          "server clock and caller metadata; model and code are run on the same inputs on every run, the composition against whole RPCs "
+          "(real client, link, real server) on the virtual clock of synctest bubbles.",
     props="Props/C08.v",
     theorems=["C08_grammar", "C08_no_misread", "C08_transfer", "C08_deadline", "C08_none",
-              "C08_key_case_insensitive", "C08_pick_sound"],
+              "C08_key_case_insensitive", "C08_pick_sound", "C08_sys_deadline", "C08_sys_none", "C08_sys_foreign"],
+    go_tags="st",
     imports=["Base.Bytes", "Model.Timeout", "Check.C08c"],
     case_type="c08case",
     find_bad_from="find_bad_from",
-    rigs=[dict(test="TestC08", timeout_quick=300, timeout_thorough=900)],
+    rigs=[dict(test="TestC08", timeout_quick=300, timeout_thorough=900),
+          dict(test="TestC08Sys", timeout_quick=300, timeout_thorough=900)],
     reason_text={"1": "implementation output differs from the Gallina model (Model/Timeout.v)",
                  "2": "implementation output violates the property predicate (Check/C08c.v: spec_*_ok)"},
     rule="cases = inputs to parseGrpcTimeout (grammar grid 6 units x 1..20 digits x {zero,one,nines,random,"
          "saturation boundary +-2}, int64 boundary, malformed and mutated strings), remaining times for the client "
-         "header (ms boundaries 1ms..10^11ms +-1ns, expired, random), header lists for the server-side scan; "
+         "header (ms boundaries 1ms..10^11ms +-1ns, expired, random), header lists for the server-side scan; end to end in bubbles "
+         "(virtual clock): {unary, client-, server-, bidi stream} x the same remaining times (-1h .. 10^4 h and beyond) x transit "
+         "{0, 2.5 ms, 3 s} x caller metadata {none, ordinary, reserved key}: handler ctx.Deadline() compared exactly with sys_deadline; "
+         "no caller deadline; header lists and the timeout-value inputs (all grammar values of the grid, every 5th other one; 4 key "
+         "spellings) put on the wire by a scripted peer for a unary and a streaming method of a real server; "
          "non-trivial = every case (each is a distinct input by its description hash)",
     assumptions=["strconv.ParseInt, fmt.Sprintf(%d), context.WithTimeout and the clock are Go's (modelled, validated differentially)",
                  "transit time is an abstract t1 - t0 >= 0"],
